@@ -1,7 +1,72 @@
-import KitModel.Go.Prelude
-/-! Driver for property C07: `kitdrv C07` reads op lines on stdin, one answer line per input line. -/
+import KitModel.NoPanicTime
+import KitModel.NoPanicKeys
+import KitModel.NoPanicEnc
+/-!
+Driver for property C07: `kitdrv C07` reads one op per line and answers with the outcome class
+(and the values) the Lean models compute:
+
+  iso s=<hex>                                  → `ok y m d dur rep` | `err` | `panic <why>`
+  parsekey raw=<hex> ct=<hex>                  → `empty` | `jwk` | `pem` | `symmetric` | `panic <why>`
+  upper r=<int>                                → `ok <hex>` | `ok delegated`
+  keyalg data=<hex> / cipher data=<hex>        → `ok <name> <id>` | `err`
+  validate kw=<hex> cph=<hex> wfk=<n> np=<n>   → `ok <kw> <cph>` | `err`
+-/
 namespace Driver.C07
+open Kit Kit.NoPanic
+
+def bytesToString (b : Bytes) : String := String.ofList (b.map fun c => Char.ofNat c.toNat)
+
+def showOutcome {α : Type} (f : α → String) : Outcome α → String
+  | .ok a => let s := f a; if s == "" then "ok" else "ok " ++ s
+  | .err _ => "err"
+  | .panic w => "panic " ++ w
+
+/-- latin-1 view of a byte string; only used for names that are compared with ASCII constants, and
+bytes ≥ 0x80 can never make such a comparison succeed. -/
+def asName (b : Bytes) : String := bytesToString b
+
+def step (_ : Unit) (line : String) : Unit × String :=
+  let l := parseLine line
+  let ans : String :=
+    match l.op with
+    | "iso" =>
+      match l.hex? "s" with
+      | some s => showOutcome (fun (r : Time.IsoRes) => s!"{r.years} {r.months} {r.days} {r.dur} {r.rep}") (Time.parseISO8601 s)
+      | none => "bad-request"
+    | "parsekey" =>
+      match l.hex? "raw", l.hex? "ct" with
+      | some raw, some ct =>
+        match Keys.parseKeyBranch raw (asName ct) with
+        | .ok .jwk => "jwk"
+        | .ok .pem => "pem"
+        | .ok .symmetric => "symmetric"
+        | .err _ => "empty"
+        | .panic w => "panic " ++ w
+      | _, _ => "bad-request"
+    | "upper" =>
+      match l.int? "r" with
+      | some r =>
+        match Enc.runeToUppercase r with
+        | .bytes b => "ok " ++ toHex b
+        | .delegated => "ok delegated"
+      | none => "bad-request"
+    | "keyalg" =>
+      match l.hex? "data" with
+      | some d => showOutcome (fun a => s!"{a} {Enc.keyAlgID a}") ((Enc.keyAlgUnmarshal d).bind Enc.keyAlgValidate)
+      | none => "bad-request"
+    | "cipher" =>
+      match l.hex? "data" with
+      | some d => showOutcome (fun a => s!"{a} {Enc.cipherID a}") ((Enc.cipherUnmarshal d).bind Enc.cipherValidate)
+      | none => "bad-request"
+    | "validate" =>
+      match l.hex? "kw", l.hex? "cph", l.nat? "wfk", l.nat? "np" with
+      | some kw, some cph, some w, some n =>
+        showOutcome (fun (p : String × String) => s!"{p.1} {p.2}") (Enc.manifestValidate (asName kw) w (asName cph) n)
+      | _, _, _, _ => "bad-request"
+    | _ => "bad-request"
+  ((), ans)
+
 def main (_args : List String) : IO UInt32 := do
-  IO.eprintln "kitdrv: C07 has no model driver yet"
-  return 2
+  lineLoop step ()
+  return 0
 end Driver.C07
